@@ -24,6 +24,7 @@ import Reamber.Lemmas.SMText
 import Reamber.Lemmas.SMPairInv
 import Reamber.Lemmas.SMWriteEvents
 import Reamber.Lemmas.SMWriteChart
+import Reamber.Lemmas.SMDenoteFile
 import Reamber.Lemmas.Snapper
 import Mathlib.Tactic.NormNum
 import Reamber.Generated.SMTables
@@ -631,6 +632,73 @@ theorem write_read_exact_chart (t0 : Rat) (cs : List BcSnap)
     simp only [hk, if_true, h1, h2, h3]
   · simp only [hk, if_false, h1]
 
+/-- **The MSD layer of a written file**: a text made of values `#p0:p1:…:pk;` (parameters without `# : ; \ /`),
+comment lines `//…` and line breaks is parsed into exactly those values, parameters trimmed, in file order. -/
+theorem msd_renderItems (items : List Item) (hok : ∀ it ∈ items, ItemOk it) :
+    msd (renderItems items) = some (valuesOf items) :=
+  SM.msd_renderItems' items hok
+
+/-- everything `write_read_exact_chart` asks of one chart and the measures written for it -/
+def ChartWritten (t0 : Rat) (cs : List BcSnap) (c : WChart) (out : List (List Str)) : Prop :=
+  ∃ keys, getKeys c.chartType = some keys ∧ 0 < keys ∧ c.notes ≠ [] ∧ toTimingMap c.bpms = tmOf t0 cs ∧
+    (∀ t ∈ (writeOrder c.notes).map (·.1), OnGridAt (grid defaultMaxDiv) t0 cs t) ∧
+    (∀ n ∈ c.notes, t0 ≤ n.time ∧ 0 ≤ n.length) ∧
+    EventsOK keys ((writeOrder c.notes).map (objEvent (beatAt t0 cs))) ∧
+    (∀ n ∈ c.notes.map (noteOfW (beatAt t0 cs)), ∀ e, n.endBeat = some e → n.beat < e) ∧
+    (c.notes.map (noteOfW (beatAt t0 cs))).Pairwise NoOverlap ∧
+    writeChartRows c = .ok out
+
+/-- the `#NOTES` value of a chart: tag, five header parameters, the emitted note data -/
+def notesValue (x : WChart × List (List Str) × (Str × Str × Str × Str × Str)) : List Str :=
+  [tagNotes, x.2.2.1, x.2.2.2.1, x.2.2.2.2.1, x.2.2.2.2.2.1, x.2.2.2.2.2.2, renderRows x.2.1]
+
+/-- **`write_read_exact` — the whole file, any number of charts.**  Let `items` be the file (values, comment lines, line
+breaks; parameters without `# : ; \ /`) whose `#NOTES` values are, in order, the charts `L` — each with its five header
+parameters and the note data `renderRows out` of the measures `SMMap.write` emits for it (`ChartWritten`: C10's domain
+for the shared tempo list `cs`, objects on the snap grid, `EventsOK`, non-overlapping holds/rolls).  The numeric
+header lines enter through the renderer assumption in applied form: the `#OFFSET` parameter parses to `offsetSec`
+(`parseFloat (show q) = .ok q`) and the `#BPMS` parameter parses to pairs that denote `cs`
+(`changesOf_written_measure_lines`), with `−1000·offsetSec = t0`.
+Then the StepMania denotation of the file exists, has that offset and those tempo pairs, is well-formed, has exactly
+one chart per element of `L`, and chart `i` — read by row scanner, `4m + 4r/R`, latest-unclosed-head pairing and
+integration over the written `#BPMS` from `−1000·#OFFSET` — is well-bracketed and has exactly the in-memory chart's
+objects: same kinds, columns, millisecond positions and hold lengths (as a multiset). -/
+theorem write_read_exact (t0 : Rat) (cs : List BcSnap)
+    (hwf : wfChanges cs = true) (hs : sortedSnaps cs = true) (h0 : firstAtZero cs = true)
+    (hgc : gridCompatible (grid defaultMaxDiv) cs = true) (hm : metronomeOk cs = true) (hM : ∀ c ∈ cs, c.met = 4)
+    (items : List Item) (hok : ∀ it ∈ items, ItemOk it)
+    (L : List (WChart × List (List Str) × (Str × Str × Str × Str × Str)))
+    (hL : ∀ x ∈ L, ChartWritten t0 cs x.1 x.2.1)
+    (hnotes : (valuesOf items).filter (tagIs tagNotes) = L.map notesValue)
+    (offT bpmT : Str) (offsetSec : Rat) (bpms : List (Rat × Rat))
+    (hoffv : firstParam (valuesOf items) tagOffsetS = some offT) (hoff : parseFloat offT = .ok offsetSec)
+    (hbpmv : firstParam (valuesOf items) tagBpmsS = some bpmT) (hbpm : parsePairs bpmT = some bpms)
+    (ho : -(1000 * offsetSec) = t0) (hbp : changesOf bpms = cs) :
+    ∃ d, denote (renderItems items) = some d ∧ d.offsetSec = some offsetSec ∧ d.bpms = some bpms ∧
+      d.chartsWellFormed = true ∧ d.charts.length = L.length ∧
+      ∀ (i : Nat) (hi : i < L.length) (hd : i < d.charts.length),
+        d.charts[i] = denoteChart (notesValue L[i]).tail ∧
+        (d.charts[i]).wellBracketed = true ∧
+        (timedNotes offsetSec bpms d.charts[i]).Perm ((L[i]).1.notes.map timedOfW) := by
+  obtain ⟨d, hd, hf⟩ := denote_renderItems items hok
+  have hcharts : d.charts = L.map (fun x => denoteChart (notesValue x).tail) := by
+    rw [hf.charts, hnotes, List.map_map]; rfl
+  refine ⟨d, hd, ?_, ?_, ?_, ?_, ?_⟩
+  · rw [hf.offset, hoffv]; simp [hoff, Except.toOption]
+  · rw [hf.bpms, hbpmv]; simp [hbpm]
+  · rw [hf.wellFormed, hnotes]
+    simp [List.all_map, notesValue]
+  · rw [hcharts]; simp
+  · intro i hi hdi
+    have hci : d.charts[i] = denoteChart (notesValue L[i]).tail := by
+      simp [hcharts]
+    obtain ⟨keys, hk, hk0, hne, hb, hts, hT, hE, hlen, hno, hw⟩ := hL L[i] (List.getElem_mem hi)
+    have := write_read_exact_chart t0 cs hwf hs h0 hgc hm hM (L[i]).1 keys hk hk0 hne hb hts hT hE hlen hno (L[i]).2.1 hw
+      (L[i]).2.2.1 (L[i]).2.2.2.1 (L[i]).2.2.2.2.1 (L[i]).2.2.2.2.2.1 (L[i]).2.2.2.2.2.2 offsetSec bpms ho hbp
+    refine ⟨hci, ?_, ?_⟩
+    · rw [hci]; exact this.1
+    · rw [hci]; exact this.2.2
+
 /-!
 what is still missing for the full `write_read_exact` for the single statement "denote (write ms) = ms":
 Proved chain: `written_beats_exact` (slotted beat = `beatAt t`) → `slot_beat_exact` (row denotes that beat) →
@@ -642,8 +710,11 @@ in beats and in milliseconds), built on `write_read_chart` (rows level) and `wri
 NOT proved (`write_read_exact` for the whole file stays `_partial`):
 * (proved since: `measuresSorted_spec`, `writeOrder_events`, `written_rows_clean`, and the one-chart assembly
   `write_read_exact_chart`)
-* the MSD layer of the whole file (`msd (render file)` = the written values: 22 header values, then one `#NOTES` value
-  per chart whose sixth parameter is `renderRows out`), for one and for several charts — `msd_render_partial`;
+* (proved since: the MSD layer `msd_renderItems` and the whole-file theorem `write_read_exact` for any number of charts);
+* `render_items_partial`: that the text `SMMapSet.write` produces *is* `renderItems items` for the items built from the
+  header and the charts (the writer's 22 header lines, the dashed comment line, the five indented header parameters
+  and `"\n" ++ rows ++ "\n"` trimmed to `renderRows out`), and that header strings with a single `/` are harmless (the
+  lemma asks for parameters without any `/`);
 * the numeric header lines (`#OFFSET`, `#SAMPLESTART`, `#SAMPLELENGTH`, bpm values): they depend on Python's float
   `repr`; the assumption to be carried is `parseFloat (show q) = .ok q` for the renderer `show` (a parameter, as in C01).
 The check evaluates the whole composition on every case (S).
